@@ -67,7 +67,7 @@ func runC09(c *core.Ctx) {
 		st := cv.S.TypeInfo
 		b := st.Bits
 		f32 := cv.D.Bits == 32
-		sc := newScannerCh(cv, 1+ti%3)
+		sc := newScannerHow(cv, 1+ti%3, ti/3)
 		preludeCheck(c, sc, name, caseID, rawOfAmp(st, 0), rawOfAmp(st, minAmp(st.Bits)), rawOfAmp(st, maxAmp(st.Bits)),
 			func(raw uint64) bool { return math.Float64frombits(raw) == 0 })
 		chunkNo := 0
@@ -94,6 +94,13 @@ func runC09(c *core.Ctx) {
 				return
 			}
 			out := sc.conv(in)
+			if sc.panicked != "" {
+				if viol < 1000 {
+					c.Violate(name+"|panic", caseID, "the conversion panicked: "+sc.panicked, map[string]any{"fn": name, "buffer_len": len(in), "channels": sc.ch})
+				}
+				viol = 1000
+				return
+			}
 			if chunkNo++; t.list || chunkNo%8 == 1 {
 				if idx, got := sc.orderCheck(in, out); idx >= 0 {
 					viol++
